@@ -952,7 +952,7 @@ def reference_fns():
             # reference helpers the rules look through: always written where they are called, so that a tree in which the
             # helper was folded into its caller has the same normal form
             transparent = {'anycache::CacheExt::add_any'}
-            _REF[0] = {'sig': d['sig'], '*': set(d['all']) - transparent, 'consts': set(d.get('consts', [])), 'callers': d.get('callers', {}), 'transparent': transparent}
+            _REF[0] = {'sig': d['sig'], '*': set(d['all']) - transparent, 'consts': set(d.get('consts', [])), 'callers': d.get('callers', {}), 'transparent': transparent, 'sig_cfg': d.get('sig_cfg', {})}
             for c, v in d.get('per_cfg', {}).items():
                 _REF[0][c] = set(v) - transparent
         else:
@@ -1054,7 +1054,7 @@ class Facts:
                 return (tuple(f['inputs']), f['output'], f.get('safety')) if f else None
             pairs = {}
             for g in gone:
-                gs = ref['sig'].get(g)
+                gs = ref.get('sig_cfg', {}).get(self.cfg, {}).get(g) or ref['sig'].get(g)
                 cands = [n for n in new if sig(n) is not None and gs is not None and list(sig(n)[0]) == gs[0] and sig(n)[1] == gs[1]]
                 if len(cands) == 1:
                     pairs.setdefault(cands[0], []).append(g)
